@@ -240,6 +240,10 @@ func spawn(ctx context.Context, cfg *poolCfg, out *poolOut, wid int, start, runs
 				ping()
 				continue
 			}
+			if ln == "VERIF-ALIVE" {
+				ping()
+				continue
+			}
 			if strings.HasPrefix(ln, "WARNING: DATA RACE") {
 				inRace = true
 				rep.Reset()
